@@ -15,3 +15,9 @@ namespace momo { struct FRow { int id; }; MOMO_DATA_COLUMN_STRUCT(FRow, id);
 typedef DataColumnList<DataColumnTraits<FRow>> FCols; typedef DataTable<FCols> FTable;
 void c04_use_dt() { FCols cl; cl.Add(id); FTable t(std::move(cl)); t.Add(t.NewRow()); FTable c(t); } }
 #endif
+#if FACTS_PART == 5
+// ObjectManager<T>::pvRelocateExec(.., std::false_type): T copy-only (no move constructor) = not nothrow relocatable
+#include "momo/Array.h"
+namespace momo { struct FCpo { FCpo(); FCpo(const FCpo&); ~FCpo(); int v; };
+void c04_use_om() { Array<FCpo> a; a.Reserve(8); a.AddBack(FCpo()); a.Reserve(100); } }
+#endif
